@@ -2,23 +2,83 @@ package clients
 
 import (
 	"os"
+	"strings"
 	"testing"
 
 	"perun.network/go-perun/channel"
+	"verif/engine/report"
 	"verif/engine/schedrun"
+	"verif/engine/vsched"
 	"verif/harness/fx"
 )
 
 func fxEnc(s *channel.State) string { return fx.Enc(s) }
 
-var harnesses = map[string]*schedrun.Harness{
-	"C06": &c06harness,
+// harnesses: property id -> sub-harnesses. Scenario names of sub-harness k are prefixed with
+// "<k>:" so that one check can combine several drivers (e.g. C08 = agreement + rejection).
+var harnesses = map[string][]*schedrun.Harness{
+	"C06": {&c06harness},
+}
+
+// register is called from init() functions of the files that add drivers.
+func register(prop string, h *schedrun.Harness) { harnesses[prop] = append(harnesses[prop], h) }
+
+func combine(hs []*schedrun.Harness) schedrun.Harness {
+	pick := func(name string) (*schedrun.Harness, string) {
+		i := strings.Index(name, ":")
+		k := int(name[0] - '0')
+		if i != 1 || k < 0 || k >= len(hs) {
+			panic("bad scenario name " + name)
+		}
+		return hs[k], name[2:]
+	}
+	sub := func(sc schedrun.Scenario) (*schedrun.Harness, schedrun.Scenario) {
+		h, n := pick(sc.Name)
+		sc.Name = n
+		return h, sc
+	}
+	out := schedrun.Harness{Name: "clients"}
+	out.Scenarios = func(res *report.Result) []schedrun.Scenario {
+		var all []schedrun.Scenario
+		for k, h := range hs {
+			for _, sc := range h.Scenarios(res) {
+				sc.Name = string(rune('0'+k)) + ":" + sc.Name
+				all = append(all, sc)
+			}
+		}
+		return all
+	}
+	out.Exec = func(t *testing.T, sc schedrun.Scenario, o vsched.Options) (*vsched.Sched, any) {
+		h, s := sub(sc)
+		return h.Exec(t, s, o)
+	}
+	out.Check = func(sc schedrun.Scenario, s *vsched.Sched, obs any) []schedrun.Verdict {
+		h, s2 := sub(sc)
+		return h.Check(s2, s, obs)
+	}
+	out.Digest = func(sc schedrun.Scenario, s *vsched.Sched, obs any) string {
+		h, s2 := sub(sc)
+		return h.Digest(s2, s, obs)
+	}
+	out.Describe = func(sc schedrun.Scenario, s *vsched.Sched, obs any) string {
+		h, s2 := sub(sc)
+		if h.Describe == nil {
+			return ""
+		}
+		return h.Describe(s2, s, obs)
+	}
+	for _, h := range hs {
+		if h.MaxExecsPerProcess > out.MaxExecsPerProcess {
+			out.MaxExecsPerProcess = h.MaxExecsPerProcess
+		}
+	}
+	return out
 }
 
 func TestCheck(t *testing.T) {
-	h, ok := harnesses[os.Getenv("VERIF_PROP")]
+	hs, ok := harnesses[os.Getenv("VERIF_PROP")]
 	if !ok {
 		t.Fatalf("harness clients does not serve property %q", os.Getenv("VERIF_PROP"))
 	}
-	schedrun.Main(t, *h)
+	schedrun.Main(t, combine(hs))
 }
